@@ -56,17 +56,18 @@ const maxProbes = 8192
 // hostState is the mutable part; only the baton holder touches it (plain stores,
 // //go:norace: nothing here may add happens-before edges between workers).
 type hostState struct {
-	tab      HostTables
-	calls    [maxStages]int
-	nProbe   int
-	probeS   [maxProbes]int8
-	probeX   [maxProbes]int64
-	probeAt  [maxProbes]int64 // simulated time of the probe
-	probeR   [maxProbes]int16 // role id of the task that ran it
-	probeOv  bool
-	fired    map[string]int // written only through fire()
-	firedArr [8]int
-	roles    []string
+	tab        HostTables
+	calls      [maxStages]int
+	nProbe     int
+	probeS     [maxProbes]int8
+	probeX     [maxProbes]int64
+	probeAt    [maxProbes]int64 // simulated time of the probe
+	probeR     [maxProbes]int16 // role id of the task that ran it
+	probeOv    bool
+	abortAbove int64
+	fired      map[string]int // written only through fire()
+	firedArr   [8]int
+	roles      []string
 }
 
 const (
@@ -126,6 +127,10 @@ func hostProbe(s, x int) {
 	}
 	i := h.nProbe
 	h.nProbe++
+	if s == 0 && h.abortAbove > 0 && int64(x) > h.abortAbove {
+		// the demand verdict is decided; do not run the pipeline to its budget
+		simrt.RequestEnd("demand-exceeded")
+	}
 	h.probeS[i] = int8(s)
 	h.probeX[i] = int64(x)
 	h.probeAt[i] = simrt.SimNow()
